@@ -1,1 +1,1324 @@
+//! Catalogue of C10 cases: every operator that offers shape inference,
+//! instantiated over its attribute grid and small shape/value alphabets, plus
+//! short shape-arithmetic chains.
 
+use vp_core::{Json, Tier, json};
+use vp_onnx::{Attr, Node, dtype};
+
+use crate::c10::{Case, Entry, TIn};
+
+pub const SIZES: [usize; 4] = [0, 1, 2, 3];
+/// Operands of shape arithmetic and value-carrying inputs.
+pub const SMALL_VALUES: [i64; 7] = [-3, -2, -1, 0, 1, 2, 3];
+/// Extreme operands (constant folding in i32).
+pub const BIG_VALUES: [i64; 4] = [65536, 1 << 30, i32::MAX as i64, i32::MIN as i64];
+
+pub fn axes_description(tier: Tier) -> Json {
+    json!({
+        "dim_sizes": SIZES,
+        "max_rank_general": max_rank(tier),
+        "small_values": SMALL_VALUES,
+        "big_values": BIG_VALUES,
+        "masks": "every subset of graph-input dims declared symbolic",
+        "naming": ["distinct", "by_value"],
+        "value_inputs": "as initializer (constant seen by inference) and as graph input (shape only), int32/int64 and integral / non-integral float where the operator accepts them",
+    })
+}
+
+pub fn max_rank(tier: Tier) -> usize {
+    tier.pick(3, 4)
+}
+
+pub fn all_shapes(max_rank: usize, sizes: &[usize]) -> Vec<Vec<usize>> {
+    let mut out: Vec<Vec<usize>> = vec![vec![]];
+    let mut cur: Vec<Vec<usize>> = vec![vec![]];
+    for _ in 0..max_rank {
+        let mut next = Vec::new();
+        for s in &cur {
+            for d in sizes {
+                let mut t = s.clone();
+                t.push(*d);
+                next.push(t);
+            }
+        }
+        out.extend(next.iter().cloned());
+        cur = next;
+    }
+    out
+}
+
+pub fn shapes_of_rank(rank: usize, sizes: &[usize]) -> Vec<Vec<usize>> {
+    all_shapes(rank, sizes).into_iter().filter(|s| s.len() == rank).collect()
+}
+
+pub fn n(op: &str, ins: &[&str], outs: &[&str]) -> Node {
+    Node::new(op, ins, outs)
+}
+
+fn entry(name: &str, f: impl Fn(Tier, &mut dyn FnMut(Case)) + Send + Sync + 'static) -> Entry {
+    Entry { name: name.to_string(), may_be_vacuous: false, generate: Box::new(f) }
+}
+
+fn entry_vac(name: &str, f: impl Fn(Tier, &mut dyn FnMut(Case)) + Send + Sync + 'static) -> Entry {
+    Entry { name: name.to_string(), may_be_vacuous: true, generate: Box::new(f) }
+}
+
+/// ONNX multidirectional broadcast of two shapes (None if incompatible).
+pub fn broadcast_shapes(a: &[usize], b: &[usize]) -> Option<Vec<usize>> {
+    let r = a.len().max(b.len());
+    let mut out = vec![0; r];
+    for i in 0..r {
+        let x = if i + a.len() >= r { a[i + a.len() - r] } else { 1 };
+        let y = if i + b.len() >= r { b[i + b.len() - r] } else { 1 };
+        out[i] = if x == y {
+            x
+        } else if x == 1 {
+            y
+        } else if y == 1 {
+            x
+        } else {
+            return None;
+        };
+    }
+    Some(out)
+}
+
+fn perms(nn: usize) -> Vec<Vec<i64>> {
+    vp_core::odometer::permutations(nn).into_iter().map(|p| p.into_iter().map(|x| x as i64).collect()).collect()
+}
+
+fn subsets(nn: usize) -> Vec<Vec<usize>> {
+    vp_core::odometer::subsets(nn).collect()
+}
+
+pub fn entries(tier: Tier) -> Vec<Entry> {
+    let mut e = Vec::new();
+    unary_family(&mut e);
+    binary_family(&mut e);
+    arithmetic_chains(&mut e);
+    layout_ops(&mut e);
+    index_ops(&mut e);
+    let _ = (tier, entry_vac("", |_, _| {}).may_be_vacuous);
+    e
+}
+
+/// Data shapes used by most single-operator entries: every shape over SIZES up
+/// to rank 2 (quick) / 3 (thorough), plus one more rank over {0,1,2}.
+pub fn data_shapes(tier: Tier) -> Vec<Vec<usize>> {
+    let base = tier.pick(2, 3);
+    let mut v = all_shapes(base, &SIZES);
+    v.extend(shapes_of_rank(base + 1, &[0, 1, 2]));
+    v
+}
+
+/// Value-carrying operand given either as an initializer or as a graph input.
+fn value_modes() -> [(bool, &'static str); 2] {
+    [(true, "constant value input"), (false, "dynamic value input")]
+}
+
+fn vin(name: &str, vals: &[i64], init: bool) -> TIn {
+    let mut t = TIn::vec_i64(name, vals);
+    t.init = init;
+    t
+}
+
+fn neg_axis(ax: usize, rank: usize) -> i64 {
+    ax as i64 - rank as i64
+}
+
+// ---------------------------------------------------------------------------
+// Operators whose inference is "same shape as the first input" (UnaryOp),
+// Identity/Neg/Cast (value-preserving variants).
+
+fn unary_family(e: &mut Vec<Entry>) {
+    // (op, attributes, element type)
+    let float_ops: Vec<(&'static str, Vec<(&'static str, Attr)>)> = vec![
+        ("Abs", vec![]),
+        ("Acos", vec![]),
+        ("Acosh", vec![]),
+        ("Asin", vec![]),
+        ("Asinh", vec![]),
+        ("Atan", vec![]),
+        ("Atanh", vec![]),
+        ("Ceil", vec![]),
+        ("Cos", vec![]),
+        ("Cosh", vec![]),
+        ("Elu", vec![("alpha", Attr::Float(0.5))]),
+        ("Erf", vec![]),
+        ("Exp", vec![]),
+        ("Floor", vec![]),
+        ("Gelu", vec![]),
+        ("Gelu", vec![("approximate", Attr::Str("tanh".into()))]),
+        ("HardSigmoid", vec![]),
+        ("HardSwish", vec![]),
+        ("Identity", vec![]),
+        ("IsInf", vec![]),
+        ("IsNaN", vec![]),
+        ("LeakyRelu", vec![]),
+        ("Log", vec![]),
+        ("Neg", vec![]),
+        ("Reciprocal", vec![]),
+        ("Relu", vec![]),
+        ("Round", vec![]),
+        ("Sigmoid", vec![]),
+        ("Sign", vec![]),
+        ("Sin", vec![]),
+        ("Sinh", vec![]),
+        ("Softplus", vec![]),
+        ("Sqrt", vec![]),
+        ("Swish", vec![]),
+        ("Tan", vec![]),
+        ("Tanh", vec![]),
+    ];
+    for (op, attrs) in float_ops {
+        let name = format!("{op}{} f32", if attrs.is_empty() { String::new() } else { format!(" {}", attrs[0].0) });
+        let attrs2 = attrs.clone();
+        e.push(entry(&name.clone(), move |tier, sink| {
+            // All float unary operators share one inference rule; the full rank
+            // range is spent on Relu, the others go to rank 2 (quick) / 3 (thorough).
+            let mr = if op == "Relu" { max_rank(tier) } else { tier.pick(2, 3) };
+            for s in all_shapes(mr, &SIZES) {
+                let mut node = n(op, &["x"], &["y"]);
+                node.attrs = attrs2.iter().map(|(k, a)| (k.to_string(), a.clone())).collect();
+                sink(Case::new(&name, "float data", vec![node], vec![TIn::f32("x", &s)]));
+            }
+        }));
+    }
+    for (op, dt, dtname) in [
+        ("Abs", dtype::INT32, "i32"),
+        ("Neg", dtype::INT32, "i32"),
+        ("Neg", dtype::INT64, "i64"),
+        ("Sign", dtype::INT32, "i32"),
+        ("Identity", dtype::INT64, "i64"),
+        ("Identity", dtype::UINT8, "u8"),
+        ("Not", dtype::BOOL, "bool"),
+    ] {
+        let name = format!("{op} {dtname}");
+        e.push(entry(&name.clone(), move |tier, sink| {
+            for s in all_shapes(tier.pick(2, 3), &SIZES) {
+                let cnt: usize = s.iter().product();
+                let vals: Vec<i64> = (0..cnt).map(|i| if dt == dtype::BOOL { (i % 2) as i64 } else { (i % 5) as i64 - if dt == dtype::UINT8 { 0 } else { 2 } }).collect();
+                for init in [false, true] {
+                    // As an initializer the operand is a constant that Neg/Identity
+                    // inference folds (scalars and vectors only carry values).
+                    if init && s.len() > 1 {
+                        continue;
+                    }
+                    let mut t = TIn::ints("x", dt, &s, &vals);
+                    t.init = init;
+                    // A model needs at least one node; with an initializer operand there
+                    // is no graph input, which is fine.
+                    sink(Case::new(&name, if init { "constant operand" } else { "dynamic operand" }, vec![n(op, &["x"], &["y"])], vec![t]));
+                }
+            }
+        }));
+    }
+    // Neg / Identity on constants with extreme values.
+    e.push(entry("Neg/Identity constant extremes", |_, sink| {
+        for op in ["Neg", "Identity"] {
+            for v in SMALL_VALUES.iter().chain(BIG_VALUES.iter()) {
+                for dt in [dtype::INT64, dtype::INT32] {
+                    sink(Case::new("Neg/Identity constant extremes", "constant operand", vec![n(op, &["x"], &["y"])], vec![TIn::ints("x", dt, &[], &[*v]).as_init()]));
+                    sink(Case::new("Neg/Identity constant extremes", "constant operand", vec![n(op, &["x"], &["y"])], vec![TIn::ints("x", dt, &[2], &[*v, 1]).as_init()]));
+                }
+            }
+            for v in [-2.0f32, 0.0, 1.0, 2.5, 65536.0, 1073741824.0, -2147483648.0] {
+                sink(Case::new("Neg/Identity constant extremes", "float constant operands", vec![n(op, &["x"], &["y"])], vec![TIn::floats("x", &[], &[v]).as_init()]));
+            }
+        }
+    }));
+}
+
+// ---------------------------------------------------------------------------
+// Broadcasting binary / variadic operators and Where.
+
+fn compatible_pairs(max_rank: usize) -> Vec<(Vec<usize>, Vec<usize>)> {
+    let shapes = all_shapes(max_rank, &SIZES);
+    let mut out = Vec::new();
+    for a in &shapes {
+        for b in &shapes {
+            if broadcast_shapes(a, b).is_some() {
+                out.push((a.clone(), b.clone()));
+            }
+        }
+    }
+    out
+}
+
+fn binary_family(e: &mut Vec<Entry>) {
+    // (op, dtype, rank budget: 0 = small, 1 = large)
+    let ops: Vec<(&'static str, i32, bool)> = vec![
+        ("Add", dtype::FLOAT, true),
+        ("Add", dtype::INT32, false),
+        ("Sub", dtype::FLOAT, false),
+        ("Mul", dtype::FLOAT, false),
+        ("Div", dtype::FLOAT, false),
+        ("Pow", dtype::FLOAT, false),
+        ("Mod", dtype::INT32, false),
+        ("And", dtype::BOOL, false),
+        ("Or", dtype::BOOL, false),
+        ("Xor", dtype::BOOL, false),
+        ("Equal", dtype::INT64, false),
+        ("Equal", dtype::FLOAT, false),
+        ("Greater", dtype::FLOAT, false),
+        ("GreaterOrEqual", dtype::FLOAT, false),
+        ("Less", dtype::FLOAT, false),
+        ("LessOrEqual", dtype::INT32, false),
+        ("PRelu", dtype::FLOAT, false),
+        ("Max", dtype::FLOAT, false),
+        ("Min", dtype::FLOAT, false),
+        ("Sum", dtype::FLOAT, false),
+        ("Mean", dtype::FLOAT, false),
+    ];
+    for (op, dt, large) in ops {
+        let name = format!("{op} {}", if dt == dtype::FLOAT { "f32" } else if dt == dtype::BOOL { "bool" } else { "int" });
+        e.push(entry(&name.clone(), move |tier, sink| {
+            let mr = if large { tier.pick(2, 3) } else { tier.pick(2, 2) };
+            for (a, b) in compatible_pairs(mr) {
+                if op == "PRelu" && broadcast_shapes(&a, &b).as_deref() != Some(&a[..]) {
+                    // slope must be unidirectionally broadcastable to the input
+                    continue;
+                }
+                let mk = |nm: &str, s: &[usize]| {
+                    if dt == dtype::FLOAT {
+                        let mut t = TIn::f32(nm, s);
+                        if let crate::c10::Data::F(v) = &mut t.data {
+                            for x in v.iter_mut() {
+                                *x = x.abs() + 1.0; // keep Div/Pow/Mod well defined
+                            }
+                        }
+                        t
+                    } else if dt == dtype::BOOL {
+                        let c: usize = s.iter().product();
+                        TIn::ints(nm, dt, s, &(0..c).map(|i| (i % 2) as i64).collect::<Vec<_>>())
+                    } else {
+                        let c: usize = s.iter().product();
+                        TIn::ints(nm, dt, s, &(0..c).map(|i| (i % 3) as i64 + 1).collect::<Vec<_>>())
+                    }
+                };
+                sink(Case::new(&name, "dynamic operands", vec![n(op, &["a", "b"], &["y"])], vec![mk("a", &a), mk("b", &b)]));
+            }
+        }));
+    }
+    // Three-operand variadic ops and Where on shapes (rank <= 1 each, all combinations).
+    for op in ["Max", "Sum", "Where"] {
+        let name = format!("{op} 3 operands");
+        e.push(entry(&name.clone(), move |tier, sink| {
+            let shapes = all_shapes(tier.pick(1, 2), &SIZES);
+            for a in &shapes {
+                for b in &shapes {
+                    let Some(ab) = broadcast_shapes(a, b) else { continue };
+                    for c in &shapes {
+                        if broadcast_shapes(&ab, c).is_none() {
+                            continue;
+                        }
+                        let first = if op == "Where" {
+                            let cnt: usize = a.iter().product();
+                            TIn::ints("a", dtype::BOOL, a, &(0..cnt).map(|i| (i % 2) as i64).collect::<Vec<_>>())
+                        } else {
+                            TIn::f32("a", a)
+                        };
+                        sink(Case::new(&name, "dynamic operands", vec![n(op, &["a", "b", "c"], &["y"])], vec![first, TIn::f32("b", b), TIn::f32("c", c)]));
+                    }
+                }
+            }
+        }));
+    }
+    // A binary op where one operand is a constant tensor (initializer) of rank
+    // 0..2: inference sees a fixed shape (or scalar/vector *values*).
+    for op in ["Add", "Mul", "Sub", "Div", "Equal", "Greater"] {
+        let name = format!("{op} with constant operand");
+        e.push(entry(&name.clone(), move |tier, sink| {
+            for (a, b) in compatible_pairs(tier.pick(2, 2)) {
+                for const_side in [0, 1] {
+                    for fl in [true, false] {
+                        let mk = |nm: &str, s: &[usize], init: bool| {
+                            let c: usize = s.iter().product();
+                            let mut t = if fl {
+                                TIn::floats(nm, s, &(0..c).map(|i| (i % 3) as f32 + 1.0).collect::<Vec<_>>())
+                            } else {
+                                TIn::ints(nm, dtype::INT64, s, &(0..c).map(|i| (i % 3) as i64 + 1).collect::<Vec<_>>())
+                            };
+                            t.init = init;
+                            t
+                        };
+                        sink(Case::new(
+                            &name,
+                            if fl { "one constant operand, float" } else { "one constant operand, int" },
+                            vec![n(op, &["a", "b"], &["y"])],
+                            vec![mk("a", &a, const_side == 0), mk("b", &b, const_side == 1)],
+                        ));
+                    }
+                }
+            }
+        }));
+    }
+}
+
+// ---------------------------------------------------------------------------
+// Shape-arithmetic chains: Shape -> Gather -> arithmetic -> Equal / Where /
+// ConstantOfShape ..., and folding of constants.
+
+/// One arithmetic step applied to a running scalar value `v`.
+#[derive(Clone, Debug)]
+enum Step {
+    Neg,
+    /// v op c
+    Right(&'static str, i64),
+    /// c op v
+    Left(&'static str, i64),
+}
+
+/// Feature of an operand derived from a dim by arithmetic steps.
+fn operand_feature(_steps: &[&Step]) -> &'static str {
+    "operand derived from a dim by Neg/Add/Sub/Mul/Div with constants"
+}
+
+fn steps(consts: &[i64]) -> Vec<Step> {
+    let mut out = vec![Step::Neg];
+    for op in ["Add", "Sub", "Mul", "Div"] {
+        for c in consts {
+            out.push(Step::Right(op, *c));
+            if op == "Sub" || op == "Div" {
+                out.push(Step::Left(op, *c));
+            }
+        }
+    }
+    out
+}
+
+/// Append the nodes of `step` reading `src`, writing `dst`; constants are
+/// added to `inputs` as int64 scalar initializers.
+fn push_step(step: &Step, src: &str, dst: &str, k: usize, nodes: &mut Vec<Node>, inputs: &mut Vec<TIn>) {
+    match step {
+        Step::Neg => nodes.push(n("Neg", &[src], &[dst])),
+        Step::Right(op, c) => {
+            let cn = format!("c{k}");
+            inputs.push(TIn::scalar_i64(&cn, *c).as_init());
+            nodes.push(n(op, &[src, &cn], &[dst]));
+        }
+        Step::Left(op, c) => {
+            let cn = format!("c{k}");
+            inputs.push(TIn::scalar_i64(&cn, *c).as_init());
+            nodes.push(n(op, &[&cn, src], &[dst]));
+        }
+    }
+}
+
+fn arithmetic_chains(e: &mut Vec<Entry>) {
+    // x[a] -> Shape -> Gather(0) -> step -> Equal(., k)
+    e.push(entry("chain Shape>Gather>step>Equal", |tier, sink| {
+        let consts: Vec<i64> = SMALL_VALUES.to_vec();
+        let ks: Vec<i64> = if tier.is_thorough() { (-9..=9).collect() } else { (-6..=6).collect() };
+        for a in SIZES {
+            for st in steps(&consts) {
+                for k in &ks {
+                    let mut nodes = vec![n("Shape", &["x"], &["s"]), n("Gather", &["s", "i0"], &["d"])];
+                    let mut inputs = vec![TIn::f32("x", &[a]), TIn::scalar_i64("i0", 0).as_init()];
+                    push_step(&st, "d", "v", 0, &mut nodes, &mut inputs);
+                    inputs.push(TIn::scalar_i64("k", *k).as_init());
+                    nodes.push(n("Equal", &["v", "k"], &["e"]));
+                    sink(Case::new("chain Shape>Gather>step>Equal", operand_feature(&[&st]), nodes, inputs).feature_for("Equal"));
+                }
+            }
+        }
+    }));
+    // two arithmetic steps before the comparison (thorough: all pairs; quick: a sub-grid)
+    e.push(entry("chain Shape>Gather>step>step>Equal", |tier, sink| {
+        let consts: Vec<i64> = if tier.is_thorough() { vec![-2, -1, 0, 1, 2] } else { vec![-2, 1, 2] };
+        let ks: Vec<i64> = if tier.is_thorough() { (-6..=6).collect() } else { vec![-4, -2, 0, 1, 2, 4] };
+        let sts = steps(&consts);
+        for a in SIZES {
+            for s1 in &sts {
+                for s2 in &sts {
+                    for k in &ks {
+                        let mut nodes = vec![n("Shape", &["x"], &["s"]), n("Gather", &["s", "i0"], &["d"])];
+                        let mut inputs = vec![TIn::f32("x", &[a]), TIn::scalar_i64("i0", 0).as_init()];
+                        push_step(s1, "d", "v1", 0, &mut nodes, &mut inputs);
+                        push_step(s2, "v1", "v2", 1, &mut nodes, &mut inputs);
+                        inputs.push(TIn::scalar_i64("k", *k).as_init());
+                        nodes.push(n("Equal", &["v2", "k"], &["e"]));
+                        sink(Case::new("chain Shape>Gather>step>step>Equal", operand_feature(&[s1, s2]), nodes, inputs).feature_for("Equal"));
+                    }
+                }
+            }
+        }
+    }));
+    // Equal of two dims / dim expressions of a rank-2 input, then Where selecting constants.
+    e.push(entry("chain Shape>Gather x2>Equal>Where", |_, sink| {
+        for a in SIZES {
+            for b in SIZES {
+                for st in [None, Some(Step::Neg), Some(Step::Right("Mul", -1)), Some(Step::Right("Mul", 2)), Some(Step::Right("Add", 1)), Some(Step::Left("Sub", 3))] {
+                    let mut nodes = vec![
+                        n("Shape", &["x"], &["s"]),
+                        n("Gather", &["s", "i0"], &["d0"]),
+                        n("Gather", &["s", "i1"], &["d1"]),
+                    ];
+                    let mut inputs = vec![TIn::f32("x", &[a, b]), TIn::scalar_i64("i0", 0).as_init(), TIn::scalar_i64("i1", 1).as_init()];
+                    let lhs = match &st {
+                        None => "d0",
+                        Some(s) => {
+                            push_step(s, "d0", "v", 0, &mut nodes, &mut inputs);
+                            "v"
+                        }
+                    };
+                    nodes.push(n("Equal", &[lhs, "d1"], &["e"]));
+                    inputs.push(TIn::scalar_i64("p", 7).as_init());
+                    inputs.push(TIn::scalar_i64("q", 9).as_init());
+                    nodes.push(n("Where", &["e", "p", "q"], &["w"]));
+                    let feature = match &st {
+                        None => "operands: two dims",
+                        Some(s) => operand_feature(&[s]),
+                    };
+                    sink(Case::new("chain Shape>Gather x2>Equal>Where", feature, nodes, inputs).feature_for("Equal"));
+                }
+            }
+        }
+    }));
+    // Expose symbolic values as dims: ... -> Unsqueeze -> ConstantOfShape
+    e.push(entry("chain Shape>Gather>step>Unsqueeze>ConstantOfShape", |_, sink| {
+        for a in SIZES {
+            for st in steps(&SMALL_VALUES) {
+                let mut nodes = vec![n("Shape", &["x"], &["s"]), n("Gather", &["s", "i0"], &["d"])];
+                let mut inputs = vec![TIn::f32("x", &[a]), TIn::scalar_i64("i0", 0).as_init()];
+                push_step(&st, "d", "v", 0, &mut nodes, &mut inputs);
+                inputs.push(TIn::vec_i64("ax", &[0]).as_init());
+                nodes.push(n("Unsqueeze", &["v", "ax"], &["u"]));
+                nodes.push(n("ConstantOfShape", &["u"], &["y"]));
+                sink(Case::new("chain Shape>Gather>step>Unsqueeze>ConstantOfShape", operand_feature(&[&st]), nodes, inputs).feature_for("ConstantOfShape"));
+            }
+        }
+    }));
+    // Whole-vector arithmetic on Shape(x) then Expand/Reshape/ConstantOfShape
+    e.push(entry("chain Shape>vector arithmetic>ConstantOfShape", |tier, sink| {
+        for s in all_shapes(tier.pick(2, 3), &SIZES) {
+            if s.is_empty() {
+                continue;
+            }
+            for (op, c) in [("Mul", 2i64), ("Add", 1), ("Sub", 1), ("Div", 2), ("Mul", 0), ("Mul", -1), ("Add", -1)] {
+                for vec_const in [false, true] {
+                    let cvals: Vec<i64> = if vec_const { vec![c; s.len()] } else { vec![c] };
+                    let ct = if vec_const { TIn::vec_i64("c", &cvals) } else { TIn::scalar_i64("c", c) };
+                    let nodes = vec![n("Shape", &["x"], &["s"]), n(op, &["s", "c"], &["v"]), n("ConstantOfShape", &["v"], &["y"])];
+                    sink(Case::new("chain Shape>vector arithmetic>ConstantOfShape", &format!("{op} by {}", if c < 0 { "negative" } else { "non-negative" }), nodes, vec![TIn::f32("x", &s), ct.as_init()]));
+                }
+            }
+        }
+    }));
+    // Concat of gathered dims and constants, used as a Reshape target.
+    e.push(entry("chain Shape>Gather>Unsqueeze>Concat>Reshape", |_, sink| {
+        for a in SIZES {
+            for b in SIZES {
+                for c in [-1i64, 0, 1, 2, 3] {
+                    let nodes = vec![
+                        n("Shape", &["x"], &["s"]),
+                        n("Gather", &["s", "i1"], &["d1"]),
+                        n("Unsqueeze", &["d1", "ax"], &["u1"]),
+                        n("Concat", &["u1", "cv"], &["t"]).attr("axis", Attr::Int(0)),
+                        n("Reshape", &["x", "t"], &["y"]),
+                    ];
+                    let inputs = vec![
+                        TIn::f32("x", &[a, b]),
+                        TIn::scalar_i64("i1", 1).as_init(),
+                        TIn::vec_i64("ax", &[0]).as_init(),
+                        TIn::vec_i64("cv", &[c]).as_init(),
+                    ];
+                    sink(Case::new("chain Shape>Gather>Unsqueeze>Concat>Reshape", "reshape to [dim, const]", nodes, inputs));
+                }
+            }
+        }
+    }));
+    // Cast in the chain (int -> float -> arithmetic -> int), as exported by PyTorch for Resize sizes.
+    e.push(entry("chain Shape>Cast>arith>Cast", |_, sink| {
+        for a in SIZES {
+            for (op, c) in [("Mul", 2.0f32), ("Mul", 0.5), ("Div", 2.0), ("Div", 0.5), ("Add", 1.0), ("Sub", 1.0)] {
+                let nodes = vec![
+                    n("Shape", &["x"], &["s"]),
+                    n("Cast", &["s"], &["sf"]).attr("to", Attr::Int(dtype::FLOAT as i64)),
+                    n(op, &["sf", "c"], &["vf"]),
+                    n("Cast", &["vf"], &["vi"]).attr("to", Attr::Int(dtype::INT64 as i64)),
+                    n("ConstantOfShape", &["vi"], &["y"]),
+                ];
+                sink(Case::new("chain Shape>Cast>arith>Cast", "float arithmetic on a shape", nodes, vec![TIn::f32("x", &[a]), TIn::floats("c", &[], &[c]).as_init()]));
+            }
+        }
+    }));
+    // Constant folding: op(c1, c2) with both operands initializers.
+    e.push(entry("constant folding int", |tier, sink| {
+        let vals: Vec<i64> = SMALL_VALUES.iter().chain(BIG_VALUES.iter()).copied().collect();
+        for op in ["Add", "Sub", "Mul", "Div", "Equal"] {
+            for dt in [dtype::INT64, dtype::INT32] {
+                if dt == dtype::INT32 && !tier.is_thorough() && op != "Div" {
+                    continue;
+                }
+                for x in &vals {
+                    for y in &vals {
+                        if op == "Div" && *y == 0 {
+                            continue; // integer division by zero: execution aborts the operator, no claim to compare
+                        }
+                        sink(Case::new(
+                            "constant folding int",
+                            "int constant operands",
+                            vec![n(op, &["a", "b"], &["y"])],
+                            vec![TIn::ints("a", dt, &[], &[*x]).as_init(), TIn::ints("b", dt, &[], &[*y]).as_init()],
+                        ));
+                    }
+                }
+            }
+        }
+    }));
+    e.push(entry("constant folding float", |_, sink| {
+        let vals: Vec<f32> = vec![-3.0, -2.0, -1.0, 0.0, 1.0, 2.0, 3.0, 0.5, 2.5, 65536.0, 1073741824.0, -2147483648.0];
+        for op in ["Add", "Sub", "Mul", "Div", "Equal"] {
+            for x in &vals {
+                for y in &vals {
+                    sink(Case::new("constant folding float", "float constant operands", vec![n(op, &["a", "b"], &["y"])], vec![TIn::floats("a", &[], &[*x]).as_init(), TIn::floats("b", &[], &[*y]).as_init()]));
+                }
+            }
+        }
+    }));
+    e.push(entry("constant folding vectors", |_, sink| {
+        // vector (len 0..3) with scalar / vector of len 1 / same length
+        for op in ["Add", "Mul", "Sub", "Div", "Equal"] {
+            for la in 0..=3usize {
+                for shape_b in [None, Some(1usize), Some(la)] {
+                    for fl in [false, true] {
+                        let a: Vec<i64> = (0..la).map(|i| i as i64 + 1).collect();
+                        let (bs, bv): (Vec<usize>, Vec<i64>) = match shape_b {
+                            None => (vec![], vec![2]),
+                            Some(l) => (vec![l], (0..l).map(|i| 2 + i as i64).collect()),
+                        };
+                        let (ta, tb) = if fl {
+                            (
+                                TIn::floats("a", &[la], &a.iter().map(|v| *v as f32).collect::<Vec<_>>()),
+                                TIn::floats("b", &bs, &bv.iter().map(|v| *v as f32).collect::<Vec<_>>()),
+                            )
+                        } else {
+                            (TIn::ints("a", dtype::INT64, &[la], &a), TIn::ints("b", dtype::INT64, &bs, &bv))
+                        };
+                        for swap in [false, true] {
+                            let ins: [&str; 2] = if swap { ["b", "a"] } else { ["a", "b"] };
+                            sink(Case::new(
+                                "constant folding vectors",
+                                if fl { "float constant operands" } else { "int constant operands" },
+                                vec![n(op, &ins, &["y"])],
+                                vec![ta.clone().as_init(), tb.clone().as_init()],
+                            ));
+                        }
+                    }
+                }
+            }
+        }
+    }));
+    // Where with constant condition from Equal of constants and scalar/vector branches.
+    e.push(entry("Where with constant inputs", |_, sink| {
+        for cond_shape in [vec![], vec![1usize], vec![2]] {
+            for x_shape in [vec![], vec![1usize], vec![2]] {
+                for y_shape in [vec![], vec![1usize], vec![2]] {
+                    let mk = |nm: &str, s: &Vec<usize>, base: i64| {
+                        let c: usize = s.iter().product();
+                        TIn::ints(nm, dtype::INT64, s, &(0..c).map(|i| base + i as i64).collect::<Vec<_>>()).as_init()
+                    };
+                    let cc: usize = cond_shape.iter().product();
+                    for cbase in [0i64, 1] {
+                        let k = TIn::ints("k", dtype::INT64, &cond_shape, &(0..cc).map(|i| (cbase + i as i64) % 2).collect::<Vec<_>>()).as_init();
+                        let one = TIn::scalar_i64("one", 1).as_init();
+                        let nodes = vec![n("Equal", &["k", "one"], &["c"]), n("Where", &["c", "p", "q"], &["w"])];
+                        sink(Case::new("Where with constant inputs", "constant condition and branches", nodes, vec![k, one, mk("p", &x_shape, 10), mk("q", &y_shape, 20)]));
+                    }
+                }
+            }
+        }
+    }));
+}
+
+// ---------------------------------------------------------------------------
+// Layout operators
+
+fn layout_ops(e: &mut Vec<Entry>) {
+    e.push(entry("Shape", |tier, sink| {
+        let bounds: Vec<Option<i64>> = std::iter::once(None).chain((-3..=3).map(Some)).collect();
+        for s in data_shapes(tier) {
+            for st in &bounds {
+                for en in &bounds {
+                    let mut node = n("Shape", &["x"], &["y"]);
+                    if let Some(v) = st {
+                        node = node.attr("start", Attr::Int(*v));
+                    }
+                    if let Some(v) = en {
+                        node = node.attr("end", Attr::Int(*v));
+                    }
+                    sink(Case::new("Shape", "start/end attributes", vec![node], vec![TIn::f32("x", &s)]));
+                }
+            }
+        }
+    }));
+    e.push(entry("Size", |tier, sink| {
+        for s in data_shapes(tier) {
+            sink(Case::new("Size", "dynamic data", vec![n("Size", &["x"], &["y"])], vec![TIn::f32("x", &s)]));
+        }
+    }));
+    e.push(entry("Flatten", |tier, sink| {
+        for s in data_shapes(tier) {
+            let r = s.len() as i64;
+            for axis in -(r + 1)..=(r + 1) {
+                sink(Case::new("Flatten", "axis attribute", vec![n("Flatten", &["x"], &["y"]).attr("axis", Attr::Int(axis))], vec![TIn::f32("x", &s)]));
+            }
+            sink(Case::new("Flatten", "default axis", vec![n("Flatten", &["x"], &["y"])], vec![TIn::f32("x", &s)]));
+        }
+    }));
+    e.push(entry("Transpose", |tier, sink| {
+        for s in data_shapes(tier) {
+            sink(Case::new("Transpose", "default perm", vec![n("Transpose", &["x"], &["y"])], vec![TIn::f32("x", &s)]));
+            for p in perms(s.len()) {
+                sink(Case::new("Transpose", "perm attribute", vec![n("Transpose", &["x"], &["y"]).attr("perm", Attr::Ints(p))], vec![TIn::f32("x", &s)]));
+            }
+        }
+    }));
+    e.push(entry("Squeeze", |tier, sink| {
+        for s in data_shapes(tier) {
+            let r = s.len();
+            sink(Case::new("Squeeze", "no axes", vec![n("Squeeze", &["x"], &["y"])], vec![TIn::f32("x", &s)]));
+            for sub in subsets(r) {
+                if sub.is_empty() && r > 0 {
+                    // an explicit empty axes vector
+                    sink(Case::new("Squeeze", "empty axes input", vec![n("Squeeze", &["x", "ax"], &["y"])], vec![TIn::f32("x", &s), vin("ax", &[], true)]));
+                    continue;
+                }
+                let pos: Vec<i64> = sub.iter().map(|a| *a as i64).collect();
+                let neg: Vec<i64> = sub.iter().map(|a| neg_axis(*a, r)).collect();
+                for axes in [pos, neg] {
+                    for (init, feat) in value_modes() {
+                        sink(Case::new("Squeeze", feat, vec![n("Squeeze", &["x", "ax"], &["y"])], vec![TIn::f32("x", &s), vin("ax", &axes, init)]));
+                    }
+                    // attribute form (opset < 13)
+                    sink(Case::new("Squeeze", "axes attribute (opset 11)", vec![n("Squeeze", &["x"], &["y"]).attr("axes", Attr::Ints(axes.clone()))], vec![TIn::f32("x", &s)]).opset(11));
+                }
+            }
+        }
+        // constant vector of length 1 -> scalar value
+        for v in [-2i64, 0, 5] {
+            for axes in [None, Some(vec![0i64]), Some(vec![-1])] {
+                let mut ins = vec![TIn::vec_i64("x", &[v]).as_init()];
+                let node = match &axes {
+                    None => n("Squeeze", &["x"], &["y"]),
+                    Some(a) => {
+                        ins.push(vin("ax", a, true));
+                        n("Squeeze", &["x", "ax"], &["y"])
+                    }
+                };
+                sink(Case::new("Squeeze", "constant vector operand", vec![node], ins));
+            }
+        }
+    }));
+    e.push(entry("Unsqueeze", |tier, sink| {
+        for s in data_shapes(tier) {
+            let r = s.len();
+            // one or two new axes anywhere in the output
+            let mut axes_sets: Vec<Vec<usize>> = Vec::new();
+            for a in 0..=r {
+                axes_sets.push(vec![a]);
+            }
+            for a in 0..=(r + 1) {
+                for b in (a + 1)..=(r + 1) {
+                    axes_sets.push(vec![a, b]);
+                    axes_sets.push(vec![b, a]);
+                }
+            }
+            for axs in axes_sets {
+                let out_rank = r + axs.len();
+                let pos: Vec<i64> = axs.iter().map(|a| *a as i64).collect();
+                let neg: Vec<i64> = axs.iter().map(|a| neg_axis(*a, out_rank)).collect();
+                for axes in [pos, neg] {
+                    for (init, feat) in value_modes() {
+                        sink(Case::new("Unsqueeze", feat, vec![n("Unsqueeze", &["x", "ax"], &["y"])], vec![TIn::f32("x", &s), vin("ax", &axes, init)]));
+                    }
+                    sink(Case::new("Unsqueeze", "axes attribute (opset 11)", vec![n("Unsqueeze", &["x"], &["y"]).attr("axes", Attr::Ints(axes.clone()))], vec![TIn::f32("x", &s)]).opset(11));
+                }
+            }
+        }
+        for v in [-2i64, 0, 5] {
+            for axes in [vec![0i64], vec![-1], vec![0, 1]] {
+                sink(Case::new("Unsqueeze", "constant scalar operand", vec![n("Unsqueeze", &["x", "ax"], &["y"])], vec![TIn::scalar_i64("x", v).as_init(), vin("ax", &axes, true)]));
+            }
+        }
+    }));
+    e.push(entry("Expand", |tier, sink| {
+        let targets = all_shapes(tier.pick(2, 3), &SIZES);
+        for s in all_shapes(2, &SIZES) {
+            for t in &targets {
+                if broadcast_shapes(&s, t).is_none() {
+                    continue;
+                }
+                let tv: Vec<i64> = t.iter().map(|d| *d as i64).collect();
+                for (init, feat) in value_modes() {
+                    sink(Case::new("Expand", feat, vec![n("Expand", &["x", "sh"], &["y"])], vec![TIn::f32("x", &s), vin("sh", &tv, init)]));
+                }
+            }
+        }
+    }));
+    e.push(entry("Reshape", |tier, sink| {
+        let alphabet: [i64; 8] = [-1, 0, 1, 2, 3, 4, 6, 9];
+        let mut targets: Vec<Vec<i64>> = vec![vec![]];
+        let mut cur: Vec<Vec<i64>> = vec![vec![]];
+        for _ in 0..tier.pick(2, 3) {
+            let mut next = Vec::new();
+            for t in &cur {
+                for a in alphabet {
+                    let mut u = t.clone();
+                    u.push(a);
+                    next.push(u);
+                }
+            }
+            targets.extend(next.iter().cloned());
+            cur = next;
+        }
+        for s in data_shapes(tier) {
+            let numel: usize = s.iter().product();
+            for allowzero in [false, true] {
+                for t in &targets {
+                    // keep only targets that are valid by the ONNX rules
+                    if t.iter().filter(|v| **v == -1).count() > 1 {
+                        continue;
+                    }
+                    let mut resolved: Vec<Option<usize>> = Vec::new();
+                    let mut ok = true;
+                    for (i, v) in t.iter().enumerate() {
+                        if *v == -1 {
+                            resolved.push(None);
+                        } else if *v == 0 && !allowzero {
+                            match s.get(i) {
+                                Some(d) => resolved.push(Some(*d)),
+                                None => ok = false,
+                            }
+                        } else {
+                            resolved.push(Some(*v as usize));
+                        }
+                    }
+                    if !ok {
+                        continue;
+                    }
+                    let known: usize = resolved.iter().flatten().product();
+                    let valid = if resolved.iter().any(|r| r.is_none()) {
+                        if known == 0 { false } else { numel % known == 0 }
+                    } else {
+                        known == numel
+                    };
+                    if !valid {
+                        continue;
+                    }
+                    for (init, feat) in value_modes() {
+                        let mut node = n("Reshape", &["x", "sh"], &["y"]);
+                        if allowzero {
+                            node = node.attr("allowzero", Attr::Int(1));
+                        }
+                        sink(Case::new("Reshape", feat, vec![node], vec![TIn::f32("x", &s), vin("sh", t, init)]));
+                    }
+                }
+            }
+        }
+        // value-preserving reshapes of constant scalars / vectors
+        for (x, sh) in [(TIn::scalar_i64("x", 4), vec![]), (TIn::scalar_i64("x", 4), vec![1i64]), (TIn::vec_i64("x", &[4, 5]), vec![-1]), (TIn::vec_i64("x", &[4, 5]), vec![2]), (TIn::vec_i64("x", &[4]), vec![])] {
+            sink(Case::new("Reshape", "constant scalar/vector data", vec![n("Reshape", &["x", "sh"], &["y"])], vec![x.as_init(), vin("sh", &sh, true)]));
+        }
+    }));
+    e.push(entry("DepthToSpace", |_, sink| {
+        for nb in [0usize, 1, 2] {
+            for c in [4usize, 8, 9] {
+                for h in [0usize, 1, 2] {
+                    for w in [1usize, 3] {
+                        for bs in [1i64, 2, 3] {
+                            for mode in ["DCR", "CRD"] {
+                                sink(Case::new(
+                                    "DepthToSpace",
+                                    "blocksize/mode attributes",
+                                    vec![n("DepthToSpace", &["x"], &["y"]).attr("blocksize", Attr::Int(bs)).attr("mode", Attr::Str(mode.into()))],
+                                    vec![TIn::f32("x", &[nb, c, h, w])],
+                                ));
+                            }
+                        }
+                    }
+                }
+            }
+        }
+    }));
+    e.push(entry("Concat", |tier, sink| {
+        for r in 1..=tier.pick(2, 3) {
+            let sizes: &[usize] = if r <= 2 { &SIZES } else { &[0, 1, 2] };
+            for base in shapes_of_rank(r, sizes) {
+                for axis in 0..r {
+                    for d1 in [0usize, 1, 2] {
+                        let mut b = base.clone();
+                        b[axis] = d1;
+                        for ax in [axis as i64, neg_axis(axis, r)] {
+                            sink(Case::new("Concat", "two dynamic inputs", vec![n("Concat", &["a", "b"], &["y"]).attr("axis", Attr::Int(ax))], vec![TIn::f32("a", &base), TIn::f32("b", &b)]));
+                        }
+                        if r <= 2 {
+                            let mut c = base.clone();
+                            c[axis] = 3;
+                            sink(Case::new(
+                                "Concat",
+                                "three inputs, middle one constant",
+                                vec![n("Concat", &["a", "b", "c"], &["y"]).attr("axis", Attr::Int(axis as i64))],
+                                vec![TIn::f32("a", &base), TIn::f32("b", &b).as_init(), TIn::f32("c", &c)],
+                            ));
+                        }
+                    }
+                }
+            }
+        }
+        // constant vectors: the value path
+        for la in 0..=2usize {
+            for lb in 0..=2usize {
+                let a: Vec<i64> = (0..la as i64).collect();
+                let b: Vec<i64> = (10..10 + lb as i64).collect();
+                for ax in [0i64, -1] {
+                    sink(Case::new("Concat", "constant vector inputs", vec![n("Concat", &["a", "b"], &["y"]).attr("axis", Attr::Int(ax))], vec![vin("a", &a, true), vin("b", &b, true)]));
+                }
+            }
+        }
+    }));
+    e.push(entry("Tile", |tier, sink| {
+        for s in all_shapes(tier.pick(2, 3), &[0, 1, 2]) {
+            let r = s.len();
+            for rep in all_shapes(r, &[0, 1, 2]).into_iter().filter(|v| v.len() == r) {
+                let rv: Vec<i64> = rep.iter().map(|v| *v as i64).collect();
+                for (init, feat) in value_modes() {
+                    sink(Case::new("Tile", feat, vec![n("Tile", &["x", "rep"], &["y"])], vec![TIn::f32("x", &s), vin("rep", &rv, init)]));
+                }
+            }
+        }
+    }));
+    e.push(entry("Split", |tier, sink| {
+        // compositions of d into 1..3 parts with parts from 0..=3
+        fn compositions(d: usize, parts: usize) -> Vec<Vec<i64>> {
+            if parts == 0 {
+                return if d == 0 { vec![vec![]] } else { vec![] };
+            }
+            let mut out = Vec::new();
+            for first in 0..=d.min(3) {
+                for mut rest in compositions(d - first, parts - 1) {
+                    rest.insert(0, first as i64);
+                    out.push(rest);
+                }
+            }
+            out
+        }
+        for s in all_shapes(tier.pick(2, 3), &SIZES) {
+            let r = s.len();
+            for axis in 0..r {
+                for parts in 1..=3usize {
+                    for comp in compositions(s[axis], parts) {
+                        let outs: Vec<String> = (0..parts).map(|i| format!("y{i}")).collect();
+                        let outs_ref: Vec<&str> = outs.iter().map(|s| s.as_str()).collect();
+                        for ax in [axis as i64, neg_axis(axis, r)] {
+                            for (init, feat) in value_modes() {
+                                sink(Case::new("Split", feat, vec![n("Split", &["x", "sp"], &outs_ref).attr("axis", Attr::Int(ax))], vec![TIn::f32("x", &s), vin("sp", &comp, init)]));
+                            }
+                            sink(Case::new("Split", "split attribute (opset 11)", vec![n("Split", &["x"], &outs_ref).attr("axis", Attr::Int(ax)).attr("split", Attr::Ints(comp.clone()))], vec![TIn::f32("x", &s)]).opset(11));
+                        }
+                    }
+                    // equal split without explicit sizes
+                    if s[axis] % parts == 0 {
+                        let outs: Vec<String> = (0..parts).map(|i| format!("y{i}")).collect();
+                        let outs_ref: Vec<&str> = outs.iter().map(|s| s.as_str()).collect();
+                        sink(Case::new(
+                            "Split",
+                            "num_outputs attribute",
+                            vec![n("Split", &["x"], &outs_ref).attr("axis", Attr::Int(axis as i64)).attr("num_outputs", Attr::Int(parts as i64))],
+                            vec![TIn::f32("x", &s)],
+                        ));
+                    }
+                }
+            }
+        }
+    }));
+}
+
+// ---------------------------------------------------------------------------
+// Indexing / generating operators
+
+/// Input class of a 1-D slice (dim d, start, end, step).
+fn slice_feature(d: usize, st: i64, en: i64, step: i64) -> &'static str {
+    let d = d as i64;
+    if step < 0 {
+        if st < -d {
+            "negative step, start below -dim"
+        } else if en >= i32::MAX as i64 {
+            "negative step, end is the INT_MAX sentinel"
+        } else {
+            "negative step"
+        }
+    } else {
+        let norm = |v: i64| (if v < 0 { v.saturating_add(d) } else { v }).clamp(0, d);
+        if norm(st) > norm(en) { "positive step, start beyond end" } else { "positive step" }
+    }
+}
+
+fn index_ops(e: &mut Vec<Entry>) {
+    e.push(entry("Slice 1-D", |tier, sink| {
+        let big = i32::MAX as i64;
+        let bounds: Vec<i64> = if tier.is_thorough() {
+            vec![-big - 1, i64::MIN, -5, -4, -3, -2, -1, 0, 1, 2, 3, 4, 5, big, i64::MAX]
+        } else {
+            vec![-big - 1, -4, -3, -2, -1, 0, 1, 2, 3, 4, big, i64::MAX]
+        };
+        for d in SIZES {
+            for st in &bounds {
+                for en in &bounds {
+                    for step in [None, Some(1i64), Some(2), Some(-1), Some(-2)] {
+                        for axes in [None, Some(0i64), Some(-1)] {
+                            for (init, mode) in value_modes() {
+                                let feat = format!("{mode}; {}", slice_feature(d, *st, *en, step.unwrap_or(1)));
+                                let feat = feat.as_str();
+                                let mut ins = vec![TIn::f32("x", &[d]), vin("st", &[*st], init), vin("en", &[*en], init)];
+                                let mut names = vec!["x", "st", "en"];
+                                if axes.is_some() || step.is_some() {
+                                    match axes {
+                                        Some(a) => {
+                                            ins.push(vin("ax", &[a], true));
+                                            names.push("ax");
+                                        }
+                                        None => names.push(""),
+                                    }
+                                }
+                                if let Some(sv) = step {
+                                    ins.push(vin("sp", &[sv], init));
+                                    names.push("sp");
+                                }
+                                sink(Case::new("Slice 1-D", feat, vec![n("Slice", &names, &["y"])], ins));
+                            }
+                        }
+                    }
+                }
+            }
+        }
+    }));
+    e.push(entry("Slice 2-D", |tier, sink| {
+        let bounds: Vec<i64> = if tier.is_thorough() { vec![-3, -1, 0, 1, 2, 3, i32::MAX as i64] } else { vec![-1, 0, 1, 3, i32::MAX as i64] };
+        for s in shapes_of_rank(2, &[0, 1, 2, 3]) {
+            for axes in [vec![0i64, 1], vec![1, 0], vec![-1], vec![0]] {
+                let k = axes.len();
+                // same bounds on every sliced axis (keeps the grid small) and all pairs for single-axis slices
+                for st in &bounds {
+                    for en in &bounds {
+                        let stv = vec![*st; k];
+                        let env = vec![*en; k];
+                        let worst = axes.iter().map(|a| slice_feature(s[(if *a < 0 { *a + 2 } else { *a }) as usize], *st, *en, 1)).max().unwrap();
+                        sink(Case::new(
+                            "Slice 2-D",
+                            &format!("constant value input; {worst}"),
+                            vec![n("Slice", &["x", "st", "en", "ax"], &["y"])],
+                            vec![TIn::f32("x", &s), vin("st", &stv, true), vin("en", &env, true), vin("ax", &axes, true)],
+                        ));
+                    }
+                }
+            }
+        }
+        // attribute form (opset 9)
+        for s in shapes_of_rank(2, &[1, 2, 3]) {
+            for (st, en) in [(0i64, 1i64), (1, 3), (0, -1), (-2, i32::MAX as i64)] {
+                sink(Case::new(
+                    "Slice 2-D",
+                    "starts/ends/axes attributes (opset 9)",
+                    vec![n("Slice", &["x"], &["y"]).attr("starts", Attr::Ints(vec![st])).attr("ends", Attr::Ints(vec![en])).attr("axes", Attr::Ints(vec![1]))],
+                    vec![TIn::f32("x", &s)],
+                ).opset(9));
+            }
+        }
+    }));
+    e.push(entry("Slice of a shape vector", |_, sink| {
+        // Shape(x) -> Slice(starts, ends) -> ConstantOfShape: symbolic values sliced
+        for s in all_shapes(3, &[1, 2, 3]).into_iter().filter(|s| !s.is_empty()) {
+            for st in [-3i64, -1, 0, 1, 2] {
+                for en in [-1i64, 0, 1, 2, 3, i32::MAX as i64] {
+                    for step in [None, Some(1i64), Some(2), Some(-1)] {
+                        let mut ins = vec![TIn::f32("x", &s), vin("st", &[st], true), vin("en", &[en], true)];
+                        let mut names = vec!["sh", "st", "en"];
+                        if let Some(sv) = step {
+                            ins.push(vin("ax", &[0], true));
+                            ins.push(vin("sp", &[sv], true));
+                            names.push("ax");
+                            names.push("sp");
+                        }
+                        let nodes = vec![n("Shape", &["x"], &["sh"]), n("Slice", &names, &["sl"]), n("ConstantOfShape", &["sl"], &["y"])];
+                        sink(Case::new("Slice of a shape vector", &format!("slicing a symbolic vector; {}", slice_feature(s.len(), st, en, step.unwrap_or(1))), nodes, ins).feature_for("Slice"));
+                    }
+                }
+            }
+        }
+    }));
+    e.push(entry("Slice with dim-derived bounds", |_, sink| {
+        // x[a] -> Shape -> Gather -> (+c) -> Unsqueeze -> used as start or end of a Slice of z[b]
+        for a in SIZES {
+            for b in SIZES {
+                for c in [-2i64, -1, 0, 1] {
+                    for as_start in [false, true] {
+                        for other in [0i64, 1, 2, i32::MAX as i64] {
+                            let mut nodes = vec![
+                                n("Shape", &["x"], &["s"]),
+                                n("Gather", &["s", "i0"], &["d"]),
+                                n("Add", &["d", "c"], &["v"]),
+                                n("Unsqueeze", &["v", "ax0"], &["u"]),
+                            ];
+                            let ins = vec![
+                                TIn::f32("x", &[a]),
+                                TIn::f32("z", &[b]),
+                                TIn::scalar_i64("i0", 0).as_init(),
+                                TIn::scalar_i64("c", c).as_init(),
+                                vin("ax0", &[0], true),
+                                vin("o", &[other], true),
+                            ];
+                            if as_start {
+                                nodes.push(n("Slice", &["z", "u", "o"], &["y"]));
+                            } else {
+                                nodes.push(n("Slice", &["z", "o", "u"], &["y"]));
+                            }
+                            sink(Case::new("Slice with dim-derived bounds", if as_start { "symbolic start, constant end" } else { "constant start, symbolic end" }, nodes, ins).feature_for("Slice"));
+                        }
+                    }
+                }
+            }
+        }
+    }));
+    e.push(entry("Gather", |tier, sink| {
+        for s in all_shapes(tier.pick(2, 3), &[1, 2, 3]).into_iter().filter(|s| !s.is_empty()) {
+            let r = s.len();
+            for axis in 0..r {
+                let d = s[axis] as i64;
+                for idx_shape in all_shapes(2, &[0, 1, 2]) {
+                    let cnt: usize = idx_shape.iter().product();
+                    let vals: Vec<i64> = (0..cnt).map(|i| if i % 2 == 0 { (i as i64) % d } else { -1 - (i as i64 % d) }).collect();
+                    for ax in [axis as i64, neg_axis(axis, r)] {
+                        for (init, feat) in value_modes() {
+                            let mut idx = TIn::ints("i", dtype::INT64, &idx_shape, &vals);
+                            idx.init = init;
+                            sink(Case::new("Gather", feat, vec![n("Gather", &["x", "i"], &["y"]).attr("axis", Attr::Int(ax))], vec![TIn::f32("x", &s), idx]));
+                        }
+                    }
+                }
+            }
+        }
+        // zero-size data with empty indices
+        for s in [vec![0usize], vec![0, 2], vec![2, 0]] {
+            sink(Case::new("Gather", "constant value input", vec![n("Gather", &["x", "i"], &["y"])], vec![TIn::f32("x", &s), TIn::ints("i", dtype::INT64, &[0], &[]).as_init()]));
+        }
+        // constant vector data: value path
+        for data in [vec![5i64], vec![5, 6, 7]] {
+            for idx in [vec![0i64], vec![-1], vec![0, 0], vec![]] {
+                if idx.iter().any(|i| *i >= data.len() as i64) {
+                    continue;
+                }
+                sink(Case::new("Gather", "constant vector data", vec![n("Gather", &["x", "i"], &["y"])], vec![vin("x", &data, true), vin("i", &idx, true)]));
+            }
+            for idx in [0i64, -1] {
+                sink(Case::new("Gather", "constant vector data", vec![n("Gather", &["x", "i"], &["y"])], vec![vin("x", &data, true), TIn::scalar_i64("i", idx).as_init()]));
+            }
+        }
+    }));
+    e.push(entry("Gather on a shape", |tier, sink| {
+        for s in all_shapes(tier.pick(2, 3), &SIZES).into_iter().filter(|s| !s.is_empty()) {
+            let r = s.len() as i64;
+            for i in -r..r {
+                let nodes = vec![n("Shape", &["x"], &["s"]), n("Gather", &["s", "i"], &["d"]), n("Unsqueeze", &["d", "ax"], &["u"]), n("ConstantOfShape", &["u"], &["y"])];
+                sink(Case::new("Gather on a shape", "scalar index into Shape", nodes, vec![TIn::f32("x", &s), TIn::scalar_i64("i", i).as_init(), vin("ax", &[0], true)]));
+                let nodes = vec![n("Shape", &["x"], &["s"]), n("Gather", &["s", "i"], &["d"]), n("ConstantOfShape", &["d"], &["y"])];
+                sink(Case::new("Gather on a shape", "vector index into Shape", nodes, vec![TIn::f32("x", &s), vin("i", &[i, 0], true)]));
+            }
+        }
+    }));
+    e.push(entry("GatherElements", |tier, sink| {
+        for s in all_shapes(2, &[1, 2, 3]).into_iter().filter(|s| !s.is_empty()) {
+            let r = s.len();
+            for axis in 0..r {
+                for idx_shape in shapes_of_rank(r, &[0, 1, 2]) {
+                    if idx_shape.iter().zip(&s).enumerate().any(|(i, (a, b))| i != axis && a > b) {
+                        continue;
+                    }
+                    let cnt: usize = idx_shape.iter().product();
+                    let vals: Vec<i64> = (0..cnt).map(|i| (i % s[axis]) as i64).collect();
+                    for (init, feat) in value_modes() {
+                        let mut idx = TIn::ints("i", dtype::INT64, &idx_shape, &vals);
+                        idx.init = init;
+                        sink(Case::new("GatherElements", feat, vec![n("GatherElements", &["x", "i"], &["y"]).attr("axis", Attr::Int(axis as i64))], vec![TIn::f32("x", &s), idx]));
+                    }
+                }
+            }
+        }
+        let _ = tier;
+    }));
+    e.push(entry("GatherND", |tier, sink| {
+        for s in all_shapes(tier.pick(2, 3), &[1, 2]).into_iter().filter(|s| !s.is_empty()) {
+            let r = s.len();
+            for batch_dims in 0..r.min(2) {
+                for tuple in 1..=(r - batch_dims) {
+                    // indices shape: batch dims + [k] + [tuple]
+                    for k in [0usize, 1, 2] {
+                        let mut ishape: Vec<usize> = s[..batch_dims].to_vec();
+                        ishape.push(k);
+                        ishape.push(tuple);
+                        let cnt: usize = ishape.iter().product();
+                        let vals = vec![0i64; cnt];
+                        for (init, feat) in value_modes() {
+                            let mut idx = TIn::ints("i", dtype::INT64, &ishape, &vals);
+                            idx.init = init;
+                            sink(Case::new("GatherND", feat, vec![n("GatherND", &["x", "i"], &["y"]).attr("batch_dims", Attr::Int(batch_dims as i64))], vec![TIn::f32("x", &s), idx]));
+                        }
+                    }
+                }
+            }
+        }
+    }));
+    e.push(entry("Pad", |tier, sink| {
+        for s in all_shapes(2, &SIZES).into_iter().filter(|s| !s.is_empty()) {
+            let r = s.len();
+            let pvals: &[i64] = if tier.is_thorough() { &[-1, 0, 1, 2] } else { &[0, 1, 2] };
+            let mut pads: Vec<Vec<i64>> = vec![vec![]];
+            for _ in 0..(2 * r) {
+                let mut next = Vec::new();
+                for p in &pads {
+                    for v in pvals {
+                        let mut q = p.clone();
+                        q.push(*v);
+                        next.push(q);
+                    }
+                }
+                pads = next;
+            }
+            for p in pads {
+                for mode in ["constant", "edge"] {
+                    for (init, feat) in value_modes() {
+                        sink(Case::new("Pad", feat, vec![n("Pad", &["x", "p"], &["y"]).attr("mode", Attr::Str(mode.into()))], vec![TIn::f32("x", &s), vin("p", &p, init)]));
+                    }
+                }
+            }
+        }
+        // axes input and attribute form
+        for s in shapes_of_rank(2, &[1, 2, 3]) {
+            for ax in [0i64, 1, -1] {
+                for (b, a) in [(0i64, 1i64), (2, 0), (1, 1)] {
+                    for ax_init in [true, false] {
+                        sink(Case::new("Pad", "axes input", vec![n("Pad", &["x", "p", "", "ax"], &["y"])], vec![TIn::f32("x", &s), vin("p", &[b, a], true), vin("ax", &[ax], ax_init)]));
+                    }
+                }
+            }
+            sink(Case::new("Pad", "pads attribute (opset 2)", vec![n("Pad", &["x"], &["y"]).attr("pads", Attr::Ints(vec![1, 0, 0, 2]))], vec![TIn::f32("x", &s)]).opset(2));
+        }
+    }));
+    e.push(entry("ConstantOfShape", |tier, sink| {
+        for t in all_shapes(tier.pick(2, 3), &SIZES) {
+            let tv: Vec<i64> = t.iter().map(|d| *d as i64).collect();
+            for (init, feat) in value_modes() {
+                for value in [None, Some(vp_onnx::Tensor::i64("", &[1], &[7])), Some(vp_onnx::Tensor::f32("", &[1], &[2.5])), Some(vp_onnx::Tensor::i32("", &[1], &[-1]))] {
+                    let mut node = n("ConstantOfShape", &["sh"], &["y"]);
+                    if let Some(v) = value {
+                        node = node.attr("value", Attr::Tensor(v));
+                    }
+                    sink(Case::new("ConstantOfShape", feat, vec![node], vec![vin("sh", &tv, init)]));
+                }
+            }
+        }
+    }));
+    e.push(entry("OneHot", |tier, sink| {
+        for s in all_shapes(2, &[0, 1, 2]) {
+            let r = s.len() as i64;
+            let cnt: usize = s.iter().product();
+            for depth in [0i64, 1, 3] {
+                for axis in -(r + 1)..=r {
+                    for (init, feat) in value_modes() {
+                        for depth_vec in [false, true] {
+                            let mut dt = if depth_vec { TIn::vec_i64("depth", &[depth]) } else { TIn::scalar_i64("depth", depth) };
+                            dt.init = init;
+                            sink(Case::new(
+                                "OneHot",
+                                feat,
+                                vec![n("OneHot", &["i", "depth", "vals"], &["y"]).attr("axis", Attr::Int(axis))],
+                                vec![TIn::ints("i", dtype::INT64, &s, &vec![0; cnt]), dt, TIn::floats("vals", &[2], &[0.0, 1.0]).as_init()],
+                            ));
+                        }
+                    }
+                }
+            }
+        }
+        let _ = tier;
+    }));
+    e.push(entry("Range", |tier, sink| {
+        let vals: Vec<i64> = if tier.is_thorough() { (-4..=4).collect() } else { vec![-3, -1, 0, 1, 2, 3] };
+        for st in &vals {
+            for li in &vals {
+                for de in &vals {
+                    if *de == 0 {
+                        continue;
+                    }
+                    for dt in [dtype::INT64, dtype::INT32] {
+                        for (init, feat) in value_modes() {
+                            let mk = |nm: &str, v: i64| {
+                                let mut t = TIn::ints(nm, dt, &[], &[v]);
+                                t.init = init;
+                                t
+                            };
+                            sink(Case::new("Range", feat, vec![n("Range", &["s", "l", "d"], &["y"])], vec![mk("s", *st), mk("l", *li), mk("d", *de)]));
+                        }
+                    }
+                }
+            }
+        }
+        for (st, li, de) in [(0.0f32, 3.0f32, 1.0f32), (0.0, 2.5, 1.0), (0.5, 3.0, 1.0), (0.0, 1.0, 0.25), (3.0, 0.0, -1.0), (0.0, 3.0, 2.0), (1.0, 2.0, 0.5)] {
+            sink(Case::new("Range", "float constant operands", vec![n("Range", &["s", "l", "d"], &["y"])], vec![TIn::floats("s", &[], &[st]).as_init(), TIn::floats("l", &[], &[li]).as_init(), TIn::floats("d", &[], &[de]).as_init()]));
+        }
+    }));
+    e.push(entry("Range with dim-derived operands", |_, sink| {
+        // Range(start, limit, delta) where one operand is a dim of x (optionally shifted)
+        for a in SIZES {
+            for c in [-2i64, 0, 1] {
+                for which in 0..3 {
+                    for o1 in [-1i64, 0, 1, 2, 3] {
+                        for o2 in [-1i64, 1, 2] {
+                            let mut nodes = vec![n("Shape", &["x"], &["s"]), n("Gather", &["s", "i0"], &["d"]), n("Add", &["d", "c"], &["v"])];
+                            let ins = vec![TIn::f32("x", &[a]), TIn::scalar_i64("i0", 0).as_init(), TIn::scalar_i64("c", c).as_init(), TIn::scalar_i64("o1", o1).as_init(), TIn::scalar_i64("o2", o2).as_init()];
+                            let (names, feat): ([&str; 3], &str) = match which {
+                                0 => (["v", "o1", "o2"], "symbolic start"),
+                                1 => (["o1", "v", "o2"], "symbolic limit"),
+                                _ => (["o1", "o2", "v"], "symbolic delta"),
+                            };
+                            if which != 2 && o2 == 0 {
+                                continue;
+                            }
+                            nodes.push(n("Range", &names, &["y"]));
+                            sink(Case::new("Range with dim-derived operands", feat, nodes, ins).feature_for("Range"));
+                        }
+                    }
+                }
+            }
+        }
+    }));
+    e.push(entry("TopK", |tier, sink| {
+        for s in all_shapes(2, &SIZES).into_iter().filter(|s| !s.is_empty()) {
+            let r = s.len();
+            for axis in 0..r {
+                for k in 0..=(s[axis] as i64 + 1) {
+                    for ax in [Some(axis as i64), Some(neg_axis(axis, r)), None] {
+                        if ax.is_none() && axis != r - 1 {
+                            continue;
+                        }
+                        for largest in [1i64, 0] {
+                            for (init, feat) in value_modes() {
+                                let mut node = n("TopK", &["x", "k"], &["v", "i"]).attr("largest", Attr::Int(largest));
+                                if let Some(a) = ax {
+                                    node = node.attr("axis", Attr::Int(a));
+                                }
+                                sink(Case::new("TopK", feat, vec![node], vec![TIn::f32("x", &s), vin("k", &[k], init)]));
+                            }
+                        }
+                    }
+                }
+            }
+        }
+        let _ = tier;
+    }));
+    e.push(entry("NonZero", |tier, sink| {
+        for s in data_shapes(tier) {
+            sink(Case::new("NonZero", "dynamic data", vec![n("NonZero", &["x"], &["y"])], vec![TIn::f32("x", &s)]));
+        }
+    }));
+}
